@@ -26,6 +26,10 @@ JudgeW(e) ==
   IN
   /\ Report("VERDICT", "C13_NoPanic", e, e.panic = "")
   /\ Report("VERDICT", "C15_Sealed", e, (e.frames > 0 /\ EncOn(e.s) /\ e.s.vout) => (e.sealed /\ ~e.canary))
+  \* ... and so is whatever the receiver sends in response (acks, nacks, relayed pings, its push/pull state,
+  \* error replies) when it enforces encryption
+  /\ Report("VERDICT", "C15_ReplySealed", e, (e.replyFrames > 0 /\ EncOn(e.r) /\ e.r.vout) => e.replySealed)
+  /\ (IF e.replyFrames > 0 /\ EncOn(e.r) /\ e.r.vout THEN PrintT(<<"STAT2", "C15_replies_checked", 1, 1>>) ELSE TRUE)
   /\ Applied(e) =>
        /\ Report("VERDICT", "C12_RoundTrip", e,
                  Compatible(e.s, e.r, e.attack) => (e.acted /\ e.delivered = e.sentDigest))
